@@ -469,4 +469,41 @@ Section Reply.
     - intro k. cbn [vw_sleeping view_of]. rewrite Q2. f_equal. rewrite !withheld_part_app. f_equal.
       subst Hd. apply withheld_of_withheld. exact WE.
   Qed.
+  (* ---- the controller call Gateway.set_child_value in closed form ---- *)
+  Definition set_child_commands (g : gw) (sid cid : Z) (vt : vtarg) (x : pyval) (mt a : option Z) : list msg :=
+    if guard_ok g sid (Some cid) then
+      if vsleep g sid then []                       (* stored as desired state, sent at wake-up (C08) *)
+      else match vt_int vt with
+           | Some vti => [mkMsg sid cid (ov mt 1) (ov a 0) vti (py_str x)]
+           | None => []
+           end
+    else unknown_reply v sid.
+
+  Lemma set_child_value_eff g sid cid vt x mt a g' : cfgv v g -> Inv orc g ->
+    set_child_value orc g sid cid vt x mt a = Ok g' ->
+    heff g g' (set_child_commands g sid cid vt x mt a).
+  Proof.
+    intros C I. unfold set_child_value, set_child_commands.
+    destruct (is_sensor g sid (Some cid)) as [[g0 b]|e] eqn:IS; cbn [bind]; [|discriminate].
+    destruct (is_sensor_eff _ _ _ _ _ C I IS) as (B & HE & GG). rewrite <- B.
+    destruct b; cbn [negb]; [|intro H; inversion H; subst g'; exact HE].
+    specialize (GG eq_refl). subst g0. symmetry in B. destruct (guard_get _ _ _ B) as (nd & G & _). rewrite G.
+    pose proof (get_node_ok orc g _ _ I G) as [K _]. simpl in K.
+    unfold vsleep. rewrite G. destruct (sleeping nd) eqn:SL.
+    - destruct (create_set_message orc g (n_id nd) cid vt x None None) as [m0|e]; cbn [bind]; [|discriminate].
+      destruct (zassoc cid (n_new nd)) as [dv|] eqn:D; [|discriminate].
+      destruct (validate_child_state orc nd cid vt x); cbn [bind]; [|discriminate].
+      destruct (vt_int vt) as [vti|]; [|discriminate].
+      intro H. inversion H; subst g'. apply (heff_put_node g nd); [simpl; rewrite K; exact G|reflexivity|].
+      rewrite SL. unfold sleeping. simpl.
+      pose proof (zset_nonnil cid (zset vti (Some x) dv) (n_new nd)) as NZ.
+      destruct (zset cid (zset vti (Some x) dv) (n_new nd)); [contradiction|reflexivity].
+    - destruct (create_set_message orc g (n_id nd) cid vt x mt a) as [m0|e] eqn:CM; cbn [bind]; [|discriminate].
+      intro H. inversion H; subst g'.
+      unfold create_set_message in CM. destruct (vt_int vt) as [vti|]; [|discriminate].
+      match type of CM with (if gvalidate orc g ?mm then _ else _) = _ =>
+        destruct (gvalidate orc g mm); inversion CM; subst m0 end.
+      rewrite (cfgv_tab v g C), k_set, K.
+      apply heff_add_job. unfold withheld, vsleep. cbn [m_node]. rewrite G, SL. apply andb_false_r.
+  Qed.
 End Reply.
